@@ -14,7 +14,9 @@ THOROUGH_SCALE = 3.0   # 16 shards; see DESIGN.md section 7
 
 RULE = (
     "for generated schemas, worlds (values, nulls, nulls in non-null positions, ResolverError and, in a "
-    "third of the cases, unexpected exceptions at arbitrary fields) and valid operations, the same "
+    "third of the cases, unexpected exceptions at arbitrary fields, drawn from a family that also "
+    "derives from IndexError, KeyError, AttributeError, TypeError, ...) and valid operations (mutations "
+    "forced in 40% of the requests), the same "
     "request is executed under graphql_blocking, the generic Executor on the blocking runtime, the "
     "thread-pool runtime and three asyncio set-ups (coroutine resolvers behind gates, synchronous "
     "resolvers shipped to the loop's executor, and a mix); the deferred runtimes run under a schedule "
